@@ -195,8 +195,8 @@ impl Ctx {
                     let img = self.rng.bytes(il);
                     let mut sp = vec![1u8, 0x10, 0x00, 0x01, 0x01]; sp.extend([0u8; 12]); sp.extend_from_slice(&img);
                     let n = sp.len();
+                    if (form == 2 && n < 192) || (form == 1 && n >= 192) { continue; }
                     let mut wire: Vec<u8> = match form { 1 => vec![n as u8], 2 => vec![(((n - 192) >> 8) + 192) as u8, ((n - 192) & 0xff) as u8], _ => { let mut v = vec![0xFF]; v.extend((n as u32).to_be_bytes()); v } };
-                    if form == 2 && n < 192 { continue; }
                     wire.extend_from_slice(&sp);
                     let mut pkt = vec![0xC0 | 17, 0xFF]; pkt.extend((wire.len() as u32).to_be_bytes()); pkt.extend_from_slice(&wire);
                     let Some(Ok(Packet::UserAttribute(ua))) = guarded(|| PacketParser::new(&pkt[..]).next()).ok().flatten() else { continue; };
